@@ -84,11 +84,15 @@ CollectN(t) ==
              b == CollectN(t1.right)
          IN <<[t1 EXCEPT !.left = a[1], !.right = b[1]], a[2] \o <<t1.c>> \o b[2]>>
 
-\* remove_at: split_at(pos), split_at(1), merge(t1, t3); result <<tree, removed element>>
+\* remove_at: split_at(pos), split_at(1), merge(t1, t3); result <<tree, removed element, the item handed back>>
 RemoveN(t, pos) ==
     LET s1 == SplitAtN(t, pos)
         s2 == SplitAtN(s1[2], 1)
-    IN <<MergeN(s1[1], s2[2]), s2[1].c>>
+    IN <<MergeN(s1[1], s2[2]), s2[1].c, s2[1]>>
+
+\* the item remove_at hands back is a clean singleton: aggregate of exactly that one element, nothing pending
+\* (so that it can be inserted again: a leaf is never update()d)
+CleanSingleton(nd) == nd.h = nd.c % Q /\ nd.len = 1 /\ nd.pa = 1 /\ nd.pb = 0
 
 \* insert_at: split_at(pos), merge(merge(left, new node), right)
 InsertN(t, pos, c, p) ==
@@ -107,6 +111,13 @@ SplitBy(a, b, k) ==
     /\ LET ab == SplitByN(live[a], k) IN live' = [live EXCEPT ![a] = ab[1], ![b] = ab[2]]
 InsertAt(a, pos, c, p) == AInsertAt(a, pos, c) /\ live' = [live EXCEPT ![a] = InsertN(live[a], pos, c, p)]
 RemoveAt(a, pos) == ARemoveAt(a, pos) /\ live' = [live EXCEPT ![a] = RemoveN(live[a], pos)[1]]
+\* the removed node's item goes into a NEW node (fresh priority p) and is inserted as insert_at does
+Move(a, from, to, p) ==
+    /\ AMove(a, from, to)
+    /\ LET r == RemoveN(live[a], from)
+           nd == [r[3] EXCEPT !.prio = p, !.left = NIL, !.right = NIL]
+           s1 == SplitAtN(r[1], to)
+       IN live' = [live EXCEPT ![a] = MergeN(MergeN(s1[1], nd), s1[2])]
 RootModify(a, m) == ARootModify(a, m) /\ live' = [live EXCEPT ![a] = ApplyN(live[a], m)]
 First(a)   == AQuery /\ live' = [live EXCEPT ![a] = FirstN(live[a])[1]]
 Last(a)    == AQuery /\ live' = [live EXCEPT ![a] = LastN(live[a])[1]]
@@ -122,7 +133,7 @@ Refines ==
               /\ FirstN(live[s])[2] = FirstResult(s)
               /\ LastN(live[s])[2] = LastResult(s)
               /\ <<live[s].h, live[s].len>> = RootAggregate(s)
-              /\ \A pos \in 0 .. Len(seqs[s]) - 1 : RemoveN(live[s], pos)[2] = RemoveResult(s, pos))
+              /\ \A pos \in 0 .. Len(seqs[s]) - 1 : RemoveN(live[s], pos)[2] = RemoveResult(s, pos) /\ CleanSingleton(RemoveN(live[s], pos)[3]))
 
 \* the aggregate kept at any subtree root equals the fold of exactly that subsequence
 RECURSIVE AggOK(_)
